@@ -38,3 +38,596 @@ pub static TASK_ID_TO_TAGS: KaniTls<RefCell<HashMap<TaskId, Arc<dyn Tag>>>> =
 #[cfg(kani)]
 pub static LABELS: KaniTls<RefCell<HashMap<TaskId, Labels>>> =
     KaniTls::new(|| RefCell::new(HashMap::with_hasher(crate::verif_support::fixed_random_state())));
+
+#[cfg(kani)]
+impl CurrentSchedule {
+    pub fn verif_last_step() -> Option<crate::scheduler::ScheduleStep> {
+        CURRENT_SCHEDULE.with(|cs| cs.current_schedule.borrow().steps.last().cloned())
+    }
+}
+
+/// (cfg(kani)) what `Execution::run` does to the recorded schedule when an execution begins
+#[cfg(kani)]
+pub(crate) fn verif_begin_execution(initial: Schedule) {
+    CurrentSchedule::init(initial);
+}
+/// An empty schedule whose `steps` vector already has room: Vec growth makes CBMC explore the allocation-failure
+/// path (handle_alloc_error prints to stderr through the formatting machinery), which costs minutes.
+#[cfg(kani)]
+pub(crate) fn verif_roomy_schedule(seed: u64) -> Schedule {
+    Schedule { seed, steps: Vec::with_capacity(8) }
+}
+#[cfg(kani)]
+pub(crate) fn verif_push_step(random: bool, t: TaskId) {
+    if random { CurrentSchedule::push_random() } else { CurrentSchedule::push_task(t) }
+}
+
+#[cfg(kani)]
+pub mod verif_exec {
+    //! Contracts on ExecutionState: schedule(), advance_to_next_task(), next_u64(), step bound, live_tasks.
+    use super::*;
+    use crate::runtime::task::TaskState;
+    use crate::scheduler::ScheduleStep;
+
+    pub const N: usize = 3;
+    /// typed storage for the tasks of one harness (a plain array local to the harness, never dropped)
+    pub type TaskStore = std::mem::ManuallyDrop<[Task; N]>;
+    pub fn new_store() -> TaskStore {
+        std::mem::ManuallyDrop::new([
+            Task::verif_dummy(0, TaskState::Finished, false),
+            Task::verif_dummy(1, TaskState::Finished, false),
+            Task::verif_dummy(2, TaskState::Finished, false),
+        ])
+    }
+    static mut VERIF_STORE: *mut Task = std::ptr::null_mut();
+    /// must be called first by every harness that uses any_state*: `let mut store = new_store(); use_store(&mut store);`
+    pub fn use_store(store: &mut TaskStore) {
+        unsafe { VERIF_STORE = store.as_mut_ptr() };
+    }
+
+    /// A scheduler that records how it was called (the "checking scheduler" of DESIGN.md C08).
+    #[derive(Debug)]
+    pub struct SpecSched {
+        pub calls: usize,
+        pub n_offered: usize,
+        pub offered: [usize; N],
+        pub current: Option<TaskId>,
+        pub is_yielding: bool,
+        pub pick_none: bool,
+        pub pick: usize,
+        pub u64_calls: usize,
+        pub u64_value: u64,
+        pub schedule_len_at_u64: usize,
+    }
+    impl SpecSched {
+        pub fn new() -> Self {
+            SpecSched { calls: 0, n_offered: 0, offered: [usize::MAX; N], current: None, is_yielding: false,
+                        pick_none: kani::any(), pick: kani::any(), u64_calls: 0, u64_value: kani::any(),
+                        schedule_len_at_u64: 0 }
+        }
+    }
+    impl Scheduler for SpecSched {
+        fn new_execution(&mut self) -> Option<Schedule> {
+            None
+        }
+        fn next_task(&mut self, runnable: &[&Task], current: Option<TaskId>, is_yielding: bool) -> Option<TaskId> {
+            self.calls += 1;
+            self.n_offered = runnable.len();
+            let mut i = 0;
+            while i < runnable.len() && i < N {
+                self.offered[i] = runnable[i].id().0;
+                i += 1;
+            }
+            self.current = current;
+            self.is_yielding = is_yielding;
+            if self.pick_none || runnable.is_empty() {
+                None
+            } else {
+                Some(runnable[self.pick % runnable.len()].id())
+            }
+        }
+        fn next_u64(&mut self) -> u64 {
+            self.u64_calls += 1;
+            self.schedule_len_at_u64 = CurrentSchedule::len();
+            self.u64_value
+        }
+    }
+
+    pub fn any_max_steps() -> MaxSteps {
+        match kani::any::<u8>() % 3 {
+            0 => MaxSteps::None,
+            1 => MaxSteps::FailAfter(kani::any()),
+            _ => MaxSteps::ContinueAfter(kani::any()),
+        }
+    }
+
+    /// An ExecutionState with `n` (<= N) tasks whose `state`/`detached` are arbitrary, satisfying the structure
+    /// invariant `live_tasks == ascending ids of unfinished tasks` (SmallVec in heap mode: the inline
+    /// `[Task; 16]` representation exhausts CBMC's memory).
+    pub fn any_state(n: usize, sched: Rc<RefCell<SpecSched>>) -> (ExecutionState, [TaskState; N], [bool; N]) {
+        any_state_pattern(n, [false; N], false, sched)
+    }
+
+    pub fn any_live_state() -> TaskState {
+        match kani::any::<u8>() % 4 {
+            0 => TaskState::Runnable,
+            1 => TaskState::Blocked { allow_spurious_wakeups: false },
+            2 => TaskState::Blocked { allow_spurious_wakeups: true },
+            _ => TaskState::Sleeping,
+        }
+    }
+
+    /// `finished[i]` (concrete) fixes which slots hold finished tasks, so that `live_tasks` -- and with it every index
+    /// into `tasks` -- is concrete; with `concrete_liveness == false` liveness is symbolic too (much more expensive).
+    pub fn any_state_pattern(n: usize, finished: [bool; N], concrete_liveness: bool, sched: Rc<RefCell<SpecSched>>) -> (ExecutionState, [TaskState; N], [bool; N]) {
+        let mut cfg = Config::new();
+        cfg.max_steps = MaxSteps::None;
+        let mut st = ExecutionState::new(cfg, sched);
+        // The task array is allocated and filled by hand: any `Vec<Task>` / `SmallVec<[Task; _]>` value that goes out
+        // of scope makes Task's drop glue (Backtrace, coroutine teardown, ...) statically reachable, which costs
+        // minutes of CBMC preprocessing per harness. Capacity > inline capacity keeps the SmallVec in heap mode.
+        let cap = DEFAULT_INLINE_TASKS + 1;
+        // A *typed* static object holds the tasks: memory from the allocator is an untyped byte array for CBMC, and
+        // every struct write/read through it is bit-blasted byte by byte (9M variables for two tasks). Only `n` slots
+        // are initialised; the claimed capacity (> inline capacity => heap mode) is never exercised because these
+        // harnesses never push into `tasks` and never free it.
+        let buf: *mut Task = unsafe { VERIF_STORE };
+        assert!(!buf.is_null());
+        let mut states = [TaskState::Finished; N];
+        let mut det = [false; N];
+        let mut live: Vec<TaskId> = Vec::with_capacity(DEFAULT_INLINE_TASKS);
+        let mut i = 0;
+        while i < n {
+            let s: TaskState = if !concrete_liveness { kani::any() } else if finished[i] { TaskState::Finished } else { any_live_state() };
+            let d: bool = kani::any();
+            states[i] = s;
+            det[i] = d;
+            unsafe { (*buf.add(i)).verif_reset(s, d) };
+            if s != TaskState::Finished {
+                live.push(TaskId(i));
+            }
+            i += 1;
+        }
+        // assigned once, by direct field assignment (every write *through a pointer* into the ExecutionState makes
+        // CBMC copy the whole object, which embeds the 16-task inline buffer of the SmallVec union)
+        let old_live = std::mem::replace(&mut st.live_tasks, live);
+        std::mem::forget(old_live);
+        unsafe { std::ptr::write(&mut st.tasks, SmallVec::from_raw_parts(buf, n, cap)) };
+        (st, states, det)
+    }
+
+    fn forget(st: ExecutionState) {
+        std::mem::forget(st);
+    }
+
+    /// C03/C08.exec.schedule  [Kb: <= 3 tasks]  (see the registry for the formula)
+    #[kani::proof]
+    #[kani::solver(minisat)]
+    #[kani::stub(std::hash::RandomState::new, crate::verif_support::fixed_random_state)]
+    #[kani::stub(crate::backtrace_enabled, crate::verif_support::stub_false)]
+    #[kani::unwind(5)]
+    fn c08_exec_schedule_2live() {
+        schedule_contract(2, [false; N]);
+    }
+
+    /// same contract, 3 live tasks
+    #[kani::proof]
+    #[kani::solver(minisat)]
+    #[kani::stub(std::hash::RandomState::new, crate::verif_support::fixed_random_state)]
+    #[kani::stub(crate::backtrace_enabled, crate::verif_support::stub_false)]
+    #[kani::unwind(5)]
+    fn c08_exec_schedule_3live() {
+        schedule_contract(3, [false; N]);
+    }
+
+    /// same contract, a finished task among the slots (ids are not contiguous in live_tasks)
+    #[kani::proof]
+    #[kani::solver(minisat)]
+    #[kani::stub(std::hash::RandomState::new, crate::verif_support::fixed_random_state)]
+    #[kani::stub(crate::backtrace_enabled, crate::verif_support::stub_false)]
+    #[kani::unwind(5)]
+    fn c08_exec_schedule_with_finished() {
+        schedule_contract(3, [true, false, false]);
+    }
+
+    fn schedule_contract(n: usize, finished: [bool; N]) {
+        let mut store = new_store();
+        use_store(&mut store);
+        let sched = Rc::new(RefCell::new(SpecSched::new()));
+        let (mut st, states, det) = any_state_pattern(n, finished, true, sched.clone());
+        // arbitrary history
+        let cur: usize = kani::any();
+        st.current_task = if kani::any() { kani::assume(cur < n); ScheduledTask::Some(TaskId(cur)) } else { ScheduledTask::None };
+        let yielded: bool = kani::any();
+        st.has_yielded = yielded;
+        let cs0: usize = kani::any();
+        kani::assume(cs0 < usize::MAX);
+        st.context_switches = cs0;
+
+        // ---- spec-side computation from the snapshot ----
+        let mut any_runnable = false;
+        let mut unfinished_attached = false;
+        let mut all_runnable_detached = true;
+        let mut exp: [usize; N] = [usize::MAX; N];
+        let mut n_exp = 0;
+        let mut i = 0;
+        while i < n {
+            let s = states[i];
+            if s != TaskState::Finished && !det[i] {
+                unfinished_attached = true;
+            }
+            if s == TaskState::Runnable {
+                any_runnable = true;
+                if !det[i] {
+                    all_runnable_detached = false;
+                }
+            }
+            if s == TaskState::Runnable || s == (TaskState::Blocked { allow_spurious_wakeups: true }) {
+                exp[n_exp] = i;
+                n_exp += 1;
+            }
+            i += 1;
+        }
+        let finished_expected = !any_runnable || (!unfinished_attached && all_runnable_detached);
+
+        let r = st.schedule();
+        let r_ok = r.is_ok();
+        std::mem::forget(r); // never drop a StepError: Box<dyn Any + Send> drop glue fans out over the whole program
+        assert!(r_ok);
+        assert!(st.context_switches == cs0 + 1);
+        let sc = sched.borrow();
+        if finished_expected {
+            // verdict "finished" <=> no task can make progress, or only detached ones can and no attached task is left;
+            // spuriously wakeable tasks do not count; the scheduler is not consulted
+            assert!(st.next_task == ScheduledTask::Finished);
+            assert!(sc.calls == 0);
+            assert!(st.has_yielded == yielded);
+            let mut k = 0;
+            while k < n {
+                assert!(st.tasks[k].verif_state() == states[k]);
+                k += 1;
+            }
+        } else {
+            assert!(sc.calls == 1);
+            assert!(st.runnable_tasks.is_empty()); // no reference to a task outlives the decision
+            // offered list: non-empty, strictly ascending ids, exactly runnable + spuriously wakeable, all unfinished
+            assert!(sc.n_offered == n_exp && n_exp >= 1);
+            let mut k = 0;
+            while k < N {
+                assert!(sc.offered[k] == exp[k]);
+                k += 1;
+            }
+            assert!(sc.current == (if let ScheduledTask::Some(t) = st.current_task { Some(t) } else { None }));
+            // yielding flag is passed exactly once
+            assert!(sc.is_yielding == yielded && !st.has_yielded);
+            if sc.pick_none {
+                assert!(st.next_task == ScheduledTask::Stopped);
+                let mut k = 0;
+                while k < n {
+                    assert!(st.tasks[k].verif_state() == states[k]);
+                    k += 1;
+                }
+            } else {
+                let chosen = exp[sc.pick % n_exp];
+                assert!(st.next_task == ScheduledTask::Some(TaskId(chosen)));
+                let mut k = 0;
+                while k < n {
+                    if k == chosen {
+                        // a chosen spuriously-woken task is made runnable
+                        assert!(st.tasks[k].verif_state() == TaskState::Runnable);
+                    } else {
+                        assert!(st.tasks[k].verif_state() == states[k]);
+                    }
+                    k += 1;
+                }
+            }
+        }
+        kani::cover!(finished_expected && any_runnable);
+        kani::cover!(!finished_expected && n_exp >= 2);
+        kani::cover!(!finished_expected && sc.pick_none);
+        drop(sc);
+        forget(st);
+    }
+
+    /// C08.exec.schedule_once  [K]: a decision already taken (next_task != None) is not taken again.
+    #[kani::proof]
+    #[kani::solver(minisat)]
+    #[kani::stub(std::hash::RandomState::new, crate::verif_support::fixed_random_state)]
+    #[kani::stub(crate::backtrace_enabled, crate::verif_support::stub_false)]
+    #[kani::unwind(5)]
+    fn c08_exec_schedule_once() {
+        let mut store = new_store();
+        use_store(&mut store);
+        let sched = Rc::new(RefCell::new(SpecSched::new()));
+        let (mut st, _states, _det) = any_state(2, sched.clone());
+        let nt = match kani::any::<u8>() % 3 {
+            0 => ScheduledTask::Some(TaskId(kani::any::<usize>() % 2)),
+            1 => ScheduledTask::Stopped,
+            _ => ScheduledTask::Finished,
+        };
+        st.next_task = nt;
+        st.config.max_steps = any_max_steps();
+        let cs0 = st.context_switches;
+        let r = st.schedule();
+        let r_ok = r.is_ok();
+        std::mem::forget(r);
+        assert!(r_ok && st.next_task == nt && sched.borrow().calls == 0 && st.context_switches == cs0);
+        kani::cover!(true);
+        forget(st);
+    }
+
+    /// C13.exec.step_bound  [K: all (len, reset_at, n) with reset_at <= len; schedule length via the real CurrentSchedule]
+    #[kani::proof]
+    #[kani::solver(minisat)]
+    #[kani::stub(std::hash::RandomState::new, crate::verif_support::fixed_random_state)]
+    #[kani::stub(crate::backtrace_enabled, crate::verif_support::stub_false)]
+    #[kani::unwind(5)]
+    fn c13_exec_step_bound() {
+        let mut store = new_store();
+        use_store(&mut store);
+        let sched = Rc::new(RefCell::new(SpecSched::new()));
+        let (mut st, _states, _det) = any_state(1, sched.clone());
+        // schedule of length len in {0,1,2}: the comparison is on len - reset_at, so small lengths with arbitrary
+        // bound n cover every relation (<, ==, >) between steps taken and the bound
+        let len: usize = kani::any();
+        kani::assume(len <= 2);
+        CurrentSchedule::init(verif_roomy_schedule(0));
+        let mut i = 0;
+        while i < len {
+            if kani::any() { CurrentSchedule::push_random(); } else { CurrentSchedule::push_task(TaskId(0)); }
+            i += 1;
+        }
+        assert!(CurrentSchedule::len() == len);
+        let reset_at: usize = kani::any();
+        kani::assume(reset_at <= len); // inv_steps
+        st.steps_reset_at = reset_at;
+        let ms = any_max_steps();
+        st.config.max_steps = ms;
+        let steps = len - reset_at;
+        let r = st.schedule();
+        let r_ok = r.is_ok();
+        let r_bound = matches!(r, Err(StepError::StepBoundExceeded));
+        std::mem::forget(r);
+        match ms {
+            MaxSteps::FailAfter(b) if steps >= b => {
+                assert!(r_bound);
+                assert!(sched.borrow().calls == 0 && st.next_task == ScheduledTask::None);
+            }
+            MaxSteps::ContinueAfter(b) if steps >= b => {
+                assert!(r_ok && st.next_task == ScheduledTask::Stopped && sched.borrow().calls == 0);
+            }
+            _ => {
+                // under the bound (or no bound): the decision proceeds normally
+                assert!(r_ok);
+                assert!(st.next_task != ScheduledTask::None);
+                assert!(matches!(st.next_task, ScheduledTask::Finished) || sched.borrow().calls == 1);
+            }
+        }
+        kani::cover!(matches!(ms, MaxSteps::FailAfter(b) if steps == b));
+        kani::cover!(matches!(ms, MaxSteps::ContinueAfter(b) if steps + 1 == b));
+        forget(st);
+    }
+
+    /// C13.exec.step_error_persist  [K]: StepBoundExceeded under ContinueAfter is the one failure not persisted.
+    #[kani::proof]
+    #[kani::solver(minisat)]
+    #[kani::stub(std::hash::RandomState::new, crate::verif_support::fixed_random_state)]
+    #[kani::stub(crate::backtrace_enabled, crate::verif_support::stub_false)]
+    #[kani::unwind(5)]
+    fn c13_exec_step_error_is_silent_only_for_continue_after() {
+        // structural: evaluate the guard of StepError::persist_failure
+        let ms = any_max_steps();
+        let which: u8 = kani::any::<u8>() % 4;
+        let e = match which {
+            0 => StepError::SchedulingError,
+            1 => StepError::Deadlock,
+            2 => StepError::StepBoundExceeded,
+            _ => StepError::TaskPanicEarlyReturn,
+        };
+        let silent = matches!(e, StepError::StepBoundExceeded) && matches!(ms, MaxSteps::ContinueAfter(_));
+        let persisted = verif_would_persist(&e, ms);
+        std::mem::forget(e);
+        assert!(persisted == !silent);
+        kani::cover!(silent);
+    }
+
+    /// mirror of the guard in `StepError::persist_failure` is NOT used: we call the real method with a config whose
+    /// persistence is None-equivalent observable through a counter. See failure.rs overlay (PERSIST_CALLS).
+    fn verif_would_persist(e: &StepError, ms: MaxSteps) -> bool {
+        let mut cfg = Config::new();
+        cfg.max_steps = ms;
+        cfg.failure_persistence = crate::FailurePersistence::None;
+        // persist_failure(config) leaves SCHEDULE_PERSISTED_AT == CurrentSchedule::len(); use that as the call witness
+        CurrentSchedule::init(verif_roomy_schedule(0));
+        crate::runtime::failure::verif_set_persisted_at(usize::MAX);
+        e.persist_failure(&cfg);
+        crate::runtime::failure::verif_persisted_at() == CurrentSchedule::len()
+    }
+
+    /// C01.exec.advance_records  [K]: every decision is appended exactly once, including "same task continues".
+    #[kani::proof]
+    #[kani::solver(minisat)]
+    #[kani::stub(std::hash::RandomState::new, crate::verif_support::fixed_random_state)]
+    #[kani::stub(crate::backtrace_enabled, crate::verif_support::stub_false)]
+    #[kani::unwind(5)]
+    fn c01_exec_advance_records() {
+        let mut store = new_store();
+        use_store(&mut store);
+        let sched = Rc::new(RefCell::new(SpecSched::new()));
+        let (mut st, _s, _d) = any_state(2, sched.clone());
+        CurrentSchedule::init(verif_roomy_schedule(kani::any()));
+        let pre: usize = kani::any();
+        kani::assume(pre <= 1);
+        if pre == 1 { CurrentSchedule::push_random(); }
+        let cur = match kani::any::<u8>() % 3 { 0 => ScheduledTask::None, 1 => ScheduledTask::Some(TaskId(0)), _ => ScheduledTask::Some(TaskId(1)) };
+        st.current_task = cur;
+        let nt = match kani::any::<u8>() % 4 {
+            0 => ScheduledTask::Some(TaskId(0)),
+            1 => ScheduledTask::Some(TaskId(1)),
+            2 => ScheduledTask::Stopped,
+            _ => ScheduledTask::Finished,
+        };
+        st.next_task = nt; // requires next_task != None
+        st.advance_to_next_task();
+        assert!(st.current_task == nt && st.next_task == ScheduledTask::None);
+        if let ScheduledTask::Some(t) = nt {
+            assert!(CurrentSchedule::len() == pre + 1);
+            assert!(CurrentSchedule::verif_last_step() == Some(ScheduleStep::Task(t)));
+        } else {
+            assert!(CurrentSchedule::len() == pre);
+        }
+        kani::cover!(cur == nt && matches!(nt, ScheduledTask::Some(_))); // same task continues: still recorded
+        forget(st);
+    }
+
+    /// C01.exec.next_u64_records_before_serving  [K]
+    #[kani::proof]
+    #[kani::solver(minisat)]
+    #[kani::stub(std::hash::RandomState::new, crate::verif_support::fixed_random_state)]
+    #[kani::stub(crate::backtrace_enabled, crate::verif_support::stub_false)]
+    #[kani::unwind(5)]
+    fn c01_exec_next_u64() {
+        let mut store = new_store();
+        use_store(&mut store);
+        let sched = Rc::new(RefCell::new(SpecSched::new()));
+        let (st, _s, _d) = any_state(1, sched.clone());
+        CurrentSchedule::init(verif_roomy_schedule(kani::any()));
+        let pre: usize = kani::any();
+        kani::assume(pre <= 1);
+        if pre == 1 { CurrentSchedule::push_task(TaskId(0)); }
+        let cell = RefCell::new(st);
+        let v = EXECUTION_STATE.set(&cell, || ExecutionState::next_u64());
+        let sc = sched.borrow();
+        assert!(sc.u64_calls == 1 && v == sc.u64_value);
+        assert!(CurrentSchedule::len() == pre + 1);
+        assert!(CurrentSchedule::verif_last_step() == Some(ScheduleStep::Random));
+        // the marker is appended BEFORE the value is obtained from the scheduler
+        assert!(sc.schedule_len_at_u64 == pre + 1);
+        kani::cover!(pre == 1);
+        drop(sc);
+        std::mem::forget(cell);
+    }
+
+    /// C14.exec.new_is_fresh  [K]: a new ExecutionState has no tasks, zero counters, no current/next task.
+    #[kani::proof]
+    #[kani::solver(minisat)]
+    #[kani::stub(std::hash::RandomState::new, crate::verif_support::fixed_random_state)]
+    #[kani::stub(crate::backtrace_enabled, crate::verif_support::stub_false)]
+    #[kani::unwind(5)]
+    fn c14_exec_new_is_fresh() {
+        let mut store = new_store();
+        use_store(&mut store);
+        let sched = Rc::new(RefCell::new(SpecSched::new()));
+        let mut cfg = Config::new();
+        cfg.max_steps = any_max_steps();
+        let st = ExecutionState::new(cfg, sched);
+        assert!(st.tasks.is_empty() && st.live_tasks.is_empty() && st.runnable_tasks.is_empty());
+        assert!(st.current_task == ScheduledTask::None && st.next_task == ScheduledTask::None);
+        assert!(!st.has_yielded && st.context_switches == 0 && st.steps_reset_at == 0 && !st.in_cleanup);
+        assert!(st.storage.verif_is_empty());
+        // CurrentSchedule::init replaces (does not append to) the recorded schedule
+        CurrentSchedule::init(verif_roomy_schedule(1));
+        CurrentSchedule::push_random();
+        let seed: u64 = kani::any();
+        CurrentSchedule::init(verif_roomy_schedule(seed));
+        assert!(CurrentSchedule::len() == 0 && CurrentSchedule::get_schedule().seed == seed);
+        kani::cover!(true);
+        forget(st);
+    }
+
+    /// C03.exec.live_tasks  [Kb <= 3 tasks]: add_task / finish_task keep live_tasks == ascending ids of unfinished tasks.
+    #[kani::proof]
+    #[kani::solver(minisat)]
+    #[kani::stub(std::hash::RandomState::new, crate::verif_support::fixed_random_state)]
+    #[kani::stub(crate::backtrace_enabled, crate::verif_support::stub_false)]
+    #[kani::unwind(5)]
+    fn c03_exec_live_tasks() {
+        let mut store = new_store();
+        use_store(&mut store);
+        let sched = Rc::new(RefCell::new(SpecSched::new()));
+        let n: usize = 2;
+        let (mut st, states, _d) = any_state(n, sched);
+        // add_task: ids are handed out as tasks.len()
+        let id = st.tasks.len();
+        st.add_task(Task::verif_dummy(id, TaskState::Runnable, kani::any()));
+        assert!(st.tasks.len() == n + 1 && st.tasks[n].id() == TaskId(n));
+        assert!(*st.live_tasks.last().unwrap() == TaskId(n));
+        // finish some unfinished task
+        let f: usize = kani::any();
+        kani::assume(f <= n);
+        kani::assume(f == n || states[f] != TaskState::Finished);
+        st.finish_task(TaskId(f));
+        assert!(st.tasks[f].finished());
+        // invariant: live_tasks is exactly the ascending list of unfinished ids
+        let mut k = 0;
+        let mut j = 0;
+        while k <= n {
+            if !st.tasks[k].finished() {
+                assert!(j < st.live_tasks.len() && st.live_tasks[j] == TaskId(k));
+                j += 1;
+            }
+            k += 1;
+        }
+        assert!(j == st.live_tasks.len());
+        kani::cover!(n == 2 && f == 0);
+        forget(st);
+    }
+
+    /// C03.exec.deadlock_predicate [Kb <= 3 tasks]: run_to_completion's verdict on `Finished`:
+    /// deadlock <=> some attached task is unfinished. Evaluated on the harness' task vector with the real iterator code
+    /// (the predicate is inlined in run_to_completion, which cannot run without coroutines).
+    #[kani::proof]
+    #[kani::solver(minisat)]
+    #[kani::stub(std::hash::RandomState::new, crate::verif_support::fixed_random_state)]
+    #[kani::stub(crate::backtrace_enabled, crate::verif_support::stub_false)]
+    #[kani::unwind(5)]
+    fn c02_exec_exit_truncates() {
+        let mut store = new_store();
+        use_store(&mut store);
+        let sched = Rc::new(RefCell::new(SpecSched::new()));
+        let n: usize = N;
+        let (mut st, states, det) = any_state(n, sched);
+        let cur: usize = kani::any();
+        kani::assume(cur < n && states[cur] == TaskState::Runnable);
+        st.current_task = ScheduledTask::Some(TaskId(cur));
+        let r = st.exit_current_truncates_execution();
+        // spec
+        let mut unfinished_attached = 0;
+        let mut unfinished_detached = 0;
+        let mut k = 0;
+        while k < n {
+            if states[k] != TaskState::Finished {
+                if det[k] { unfinished_detached += 1; } else { unfinished_attached += 1; }
+            }
+            k += 1;
+        }
+        let expect = cur == 0 || (!det[cur] && unfinished_attached == 1 && unfinished_detached >= 1);
+        assert!(r == expect);
+        kani::cover!(cur != 0 && expect);
+        kani::cover!(cur != 0 && !expect);
+        forget(st);
+    }
+
+    /// C08.exec.request_yield [K]: sets the flag and nothing else.
+    #[kani::proof]
+    #[kani::solver(minisat)]
+    #[kani::stub(std::hash::RandomState::new, crate::verif_support::fixed_random_state)]
+    #[kani::stub(crate::backtrace_enabled, crate::verif_support::stub_false)]
+    #[kani::unwind(5)]
+    fn c08_exec_request_yield() {
+        let mut store = new_store();
+        use_store(&mut store);
+        let sched = Rc::new(RefCell::new(SpecSched::new()));
+        let (mut st, states, _d) = any_state(1, sched.clone());
+        st.has_yielded = kani::any();
+        let cs = st.context_switches;
+        let cell = RefCell::new(st);
+        EXECUTION_STATE.set(&cell, || ExecutionState::request_yield());
+        let st = cell.borrow();
+        assert!(st.has_yielded && st.context_switches == cs && st.next_task == ScheduledTask::None);
+        assert!(st.tasks[0].verif_state() == states[0] && sched.borrow().calls == 0);
+        kani::cover!(true);
+        drop(st);
+        std::mem::forget(cell);
+    }
+}
